@@ -22,9 +22,10 @@ G = 'crates/emmylua_parser/src/grammar/lua/mod.rs'
 def trait_spec_overlay(text, ghost='', methods=None, **_):
     """Specification overlay for a `trait` item extracted as a whole: inserts ghost `spec fn`
     declarations after the opening brace and, per named method, a result name `(r: T)` and
-    `requires`/`ensures` clauses between the signature and the body (or the `;`). Only ghost text is
-    added: every executable token of the trait is kept, in order (the rule checks that deleting what it
-    inserted gives back the extracted text)."""
+    `requires`/`ensures` clauses between the signature and the body (or the `;`), and proof blocks at
+    anchors inside a default method. Only ghost text is added: every edit is a pure insertion, except
+    the result name, which wraps the unchanged return type (checked below), so every executable token
+    of the trait is kept, in order."""
     methods = methods or {}
     toks = L.code_tokens(text)
     ob = next(i for i, t in enumerate(toks) if L.tok_text(text, t) == '{')
@@ -71,6 +72,15 @@ def trait_spec_overlay(text, ghost='', methods=None, **_):
                         raise Undecided('trait-spec-overlay: %s has no body' % name)
                     edits.append((toks[j][2], toks[j][2], '\n' + cfg['body_first'].strip() + '\n'))
                 edits.append((sig_end, sig_end, c + '\n    '))
+                if cfg.get('proof'):
+                    bc = L.match_close(text, toks, j)
+                    lo, hi = toks[j][1], toks[bc][2]
+                    for anchor, where, txt in cfg['proof']:
+                        ms = list(re.finditer(anchor, text[lo:hi]))
+                        if len(ms) != 1:
+                            raise Undecided('trait-spec-overlay: proof anchor /%s/ matched %d times in %s' % (anchor, len(ms), name))
+                        pos = lo + (ms[0].start() if where == 'before' else ms[0].end())
+                        edits.append((pos, pos, '\n' + txt.strip() + '\n'))
             k = L.match_close(text, toks, j) + 1 if L.tok_text(text, toks[j]) == '{' else j + 1
             continue
         k += 1
@@ -78,6 +88,8 @@ def trait_spec_overlay(text, ghost='', methods=None, **_):
         raise Undecided('trait-spec-overlay: only %d of %d methods found' % (n, len(methods)))
     out = text
     for pos, end, new in sorted(edits, key=lambda e: (e[0], e[1]), reverse=True):
+        if text[pos:end] not in new:
+            raise Undecided('trait-spec-overlay: edit would delete extracted text')
         out = out[:pos] + new + out[end:]
     return out, max(n, 1)
 
@@ -101,6 +113,7 @@ def m_fn(owner, name, **kw):
 
 
 DERIVE = '#[derive(Clone, Copy, PartialEq, Eq)]'
+DERIVE_KIND = '#[derive(Clone, Copy, PartialEq, Eq, Structural)]'
 
 EV0 = 'old(p).sp_events()'
 EV1 = 'final(p).sp_events()'
@@ -116,6 +129,7 @@ TRAIT_GHOST = """
     spec fn sp_events(&self) -> Seq<MarkEvent>;
     spec fn sp_level(&self) -> nat;
     spec fn sp_rest(&self) -> Rest;
+    proof fn lemma_events_bounded(&self) ensures self.sp_events().len() <= usize::MAX;
 """
 
 TRAIT_METHODS = {
@@ -136,7 +150,8 @@ TRAIT_METHODS = {
             m.position == old(self).sp_events().len(),
             final(self).sp_level() == old(self).sp_level() + 1,
             """ + FRAME_SELF,
-        'body_first': 'broadcast use lemma_eaten_push;'},
+        'body_first': 'broadcast use lemma_eaten_push;',
+        'proof': [(r'\.push\(MarkEvent::NodeStart \{ kind, parent: 0 \}\);', 'after', 'proof { self.lemma_events_bounded(); }')]},
     'push_node_end': {
         'requires': 'old(self).sp_level() > 0',
         'ensures': """final(self).sp_events() == old(self).sp_events().push(MarkEvent::NodeEnd),
@@ -163,15 +178,15 @@ invariant
     ({ let e = if i < k { k } else { i as int }; let j = e - doc_tokens@.len();
        &&& k <= j
        &&& doc_tokens@ == self.tokens@.subrange(j, e)
-       &&& emits(eaten(self.events@), ranges(self.tokens@).take(j), doc_mode(self)) }),
+       &&& emits(eaten(self.events@), ranges(self.tokens@).take(j), doc_mode(self)) }), /*@C01.trivia.emits-run*/
     doc_tokens@.len() > 0 ==> sp_comment(doc_tokens@[0].kind),
     0 <= line_count <= i - start,
 """
 
 UNIT = {
     'items': {
-        'LuaTokenKind': {'src': {'file': TK, 'kind': 'enum', 'name': 'LuaTokenKind'}, 'attrs': DERIVE},
-        'LuaSyntaxKind': {'src': {'file': SK, 'kind': 'enum', 'name': 'LuaSyntaxKind'}, 'attrs': DERIVE},
+        'LuaTokenKind': {'src': {'file': TK, 'kind': 'enum', 'name': 'LuaTokenKind'}, 'attrs': DERIVE_KIND},
+        'LuaSyntaxKind': {'src': {'file': SK, 'kind': 'enum', 'name': 'LuaSyntaxKind'}, 'attrs': DERIVE_KIND},
         'SourceRange': {'src': {'file': TR, 'kind': 'struct', 'name': 'SourceRange'}, 'attrs': DERIVE},
         'SourceRange::EMPTY': {'src': {'file': TR, 'kind': 'const', 'impl': 'SourceRange', 'name': 'EMPTY'}},
         'LuaTokenData': {'src': {'file': TD, 'kind': 'struct', 'name': 'LuaTokenData'}, 'attrs': DERIVE},
@@ -186,7 +201,7 @@ UNIT = {
             'Marker', 'set_kind',
             requires='old(self).position < old(p).sp_events().len(), old(p).sp_events()[old(self).position as int] is NodeStart',
             ensures="""final(self).position == old(self).position,
-            alters_start(old(p).sp_events(), final(p).sp_events(), old(self).position as int),
+            alters_start(old(p).sp_events(), final(p).sp_events(), old(self).position as int) /*@C02.marker.touches-own-nodestart-only*/,
             ns_kind(final(p).sp_events()[old(self).position as int]) == kind,
             ns_parent(final(p).sp_events()[old(self).position as int]) == ns_parent(old(p).sp_events()[old(self).position as int]),
             final(p).sp_level() == old(p).sp_level(),
@@ -212,7 +227,7 @@ UNIT = {
         'Marker::undo': m_fn(
             'Marker', 'undo', ret='cm',
             requires=MARKER_OK,
-            ensures="""alters_start(old(p).sp_events(), final(p).sp_events(), self.position as int),
+            ensures="""alters_start(old(p).sp_events(), final(p).sp_events(), self.position as int) /*@C02.marker.touches-own-nodestart-only*/,
             ns_kind(final(p).sp_events()[self.position as int]) is None,
             final(p).sp_level() == old(p).sp_level(),
             cm.start == self.position, cm.kind is None,
@@ -254,7 +269,7 @@ UNIT = {
             final(self).mark_level >= old(self).mark_level,
             final(self).token_index == final(self).tokens@.len() || !sp_trivia(final(self).current_token)""",
             proof=[(r'if is_trivia_kind\(self\.current_token\) \{', 'before',
-                    'proof { assert(eaten(self.events@) =~= ranges(self.tokens@).take(0)); }')]),
+                    'proof { lemma_emits_nil(eaten(self.events@), ranges(self.tokens@).take(0), doc_mode(self)); }')]),
         'LuaParser::current_token': p_fn('current_token', ret='r', ensures='r == self.current_token'),
         'LuaParser::current_token_index': p_fn('current_token_index', ret='r', ensures='r == self.token_index'),
         'LuaParser::current_token_range': p_fn(
@@ -284,30 +299,36 @@ UNIT = {
             final(self).mark_level >= old(self).mark_level,
             final(self).token_index == final(self).tokens@.len() || !sp_trivia(final(self).current_token)""",
             body_first='broadcast use lemma_eaten_push;',
-            proof=[(r'let mut next_index = self\.token_index \+ 1;', 'before',
-                    """proof {
+            proof=[(r'self\.parse_trivia_tokens\(next_index\);', 'after',
+                    'proof { lemma_mono_trans(old(self).events@, ev1, self.events@); }'),
+                   (r'let mut next_index = self\.token_index[^;]*;', 'before',
+                    """let ghost ev1 = self.events@;
+            let ghost kk: int = if sp_trivia(self.tokens@[self.token_index as int].kind) { self.token_index as int } else { self.token_index + 1 };
+            proof {
                 if !sp_invalid(old(self).current_token) {
                     lemma_emits_push_one(eaten(old(self).events@), ranges(self.tokens@), self.token_index as int, doc_mode(self));
                 }
+                // the current token has been emitted exactly once iff it is not trivia (trivia is emitted by parse_trivia_tokens)
+                assert(emits(eaten(self.events@), ranges(self.tokens@).take(kk), doc_mode(self))); /*@C01.bump.emits-each-token-once*/
             }""")]),
         'LuaParser::peek_next_token': p_fn('peek_next_token', ret='r', requires='self.token_index < usize::MAX',
                                            ensures='!sp_trivia(r)'),
         'LuaParser::peek_nth_token': p_fn(
             'peek_nth_token', ret='r',
             requires='self.token_index <= self.tokens@.len(), self.tokens@.len() + n < usize::MAX',
-            loops={0: 'invariant index <= self.tokens@.len() + VERUS_ghost_iter.index(), VERUS_ghost_iter.index() <= n + 1, VERUS_ghost_iter.seq().len() == n + 1,'}),
+            loops={0: 'invariant self.tokens@.len() + n < usize::MAX, index <= self.tokens@.len() + VERUS_ghost_iter.index(), VERUS_ghost_iter.seq().len() == n + 1,'}),
         'LuaParser::skip_trivia': p_fn(
-            'skip_trivia',
+            'skip_trivia', rules=['refmut-cmp-deref'],
             ensures="""*final(index) >= *old(index),
             *old(index) >= self.tokens@.len() ==> *final(index) == *old(index),
             *old(index) < self.tokens@.len() ==> *final(index) <= self.tokens@.len(),
-            forall|j: int| *old(index) <= j < *final(index) ==> sp_trivia(#[trigger] self.tokens@[j].kind),
+            forall|j: int| *old(index) <= j < *final(index) ==> sp_trivia(#[trigger] self.tokens@[j].kind) /*@C01.skip_trivia.skips-only-trivia*/,
             *final(index) < self.tokens@.len() ==> !sp_trivia(self.tokens@[*final(index) as int].kind) /*@C01.skip_trivia.stops-at-non-trivia*/""",
             loops={0: """invariant_except_break
     *index < self.tokens@.len(), kind == self.tokens@[*index as int].kind,
 invariant
-    *old(index) <= *index <= self.tokens@.len(),
-    forall|j: int| *old(index) <= j < *index ==> sp_trivia(#[trigger] self.tokens@[j].kind),
+    *old(index) <= *index <= self.tokens@.len(), self.tokens@.len() <= usize::MAX,
+    forall|j: int| *old(index) <= j < *index ==> sp_trivia(#[trigger] self.tokens@[j].kind), /*@C01.skip_trivia.skips-only-trivia*/
 ensures
     *index >= self.tokens@.len() || !sp_trivia(self.tokens@[*index as int].kind),
 decreases self.tokens@.len() - *index"""}),
@@ -321,20 +342,152 @@ decreases self.tokens@.len() - *index"""}),
                   doc_mode(old(self)))""",
             ensures="""emits(eaten(final(self).events@), ranges(final(self).tokens@).take(next_index as int), doc_mode(final(self))) /*@C01.trivia.emits-run*/,
             """ + PARSER_FRAME,
-            body_first="""broadcast use lemma_eaten_push;
-        let ghost k: int = if sp_trivia(self.tokens@[self.token_index as int].kind) { self.token_index as int } else { self.token_index + 1 };""",
+            attrs='#[verifier::spinoff_prover]',
+            body_first="""let ghost k: int = if sp_trivia(self.tokens@[self.token_index as int].kind) { self.token_index as int } else { self.token_index + 1 };""",
+            proof=[
+                (r'for i in start\.\.next_index \{', 'after', 'broadcast use lemma_eaten_push;'),
+                (r'let token = &self\.tokens\[i\];', 'after',
+                 """let ghost j0: int = (if i < k { k } else { i as int }) - doc_tokens@.len();
+            let ghost ee = eaten(self.events@);
+            let ghost rr = ranges(self.tokens@);
+            proof {
+                if i >= k {
+                    assert(self.tokens@.subrange(j0, i as int).push(self.tokens@[i as int]) =~= self.tokens@.subrange(j0, i + 1));
+                    lemma_ranges_subrange(self.tokens@, j0, i + 1);
+                    lemma_adjacent_subrange(rr, j0, i + 1);
+                    if doc_tokens@.len() == 0 {
+                        lemma_emits_push_one(ee, rr, i as int, doc_mode(self));
+                    }
+                }
+            }"""),
+                (r'if line_count > 1 && !doc_tokens\.is_empty\(\) \{\s*self\.parse_comments\(&doc_tokens\);', 'after',
+                 'proof { lemma_emits_append(ee, eaten(self.events@), rr, j0, i + 1, doc_mode(self)); }'),
+                (r'if inline_comment \{\s*self\.parse_comments\(&doc_tokens\);', 'after',
+                 'proof { lemma_emits_append(ee, eaten(self.events@), rr, j0, i + 1, doc_mode(self)); }'),
+                (r'doc_tokens\.clear\(\);\s*\}\s*\}\s*\}(?=\s*\}\s*(?:if !doc_tokens|doc_tokens\.clear))', 'after',
+                 'proof { assert(doc_tokens@.len() == 0 ==> doc_tokens@ =~= self.tokens@.subrange(i + 1, i + 1)); }'),
+                (r'if !doc_tokens\.is_empty\(\) \{\s*self\.parse_comments\(&doc_tokens\);\s*\}\s*\}\s*$', 'before',
+                 """let ghost e9 = eaten(self.events@);
+        let ghost j9: int = next_index - doc_tokens@.len();
+        proof {
+            lemma_ranges_subrange(self.tokens@, j9, next_index as int);
+            lemma_adjacent_subrange(ranges(self.tokens@), j9, next_index as int);
+        }"""),
+                (r'self\.parse_comments\(&doc_tokens\);(?=\s*\}\s*\}\s*$)', 'after',
+                 'proof { lemma_emits_append(e9, eaten(self.events@), ranges(self.tokens@), j9, next_index as int, doc_mode(self)); }'),
+            ],
             loops={0: PTT_INV,
                    1: 'invariant -1 <= temp_index <= i - 2, i < self.tokens@.len(), self.tokens@.len() < 0x7fff_ffff,\ndecreases temp_index + 1'},
         ),
-        'LuaParser::parse_comments': p_fn('parse_comments'),
+        'LuaParser::parse_comments': p_fn(
+            'parse_comments',
+            requires="""lvl_ok(old(self)), adjacent(ranges(comment_tokens@)),
+            doc_mode(old(self)) ==> comment_tokens@.len() > 0 && sp_comment(comment_tokens@[0].kind)""",
+            ensures="""grows(eaten(old(self).events@), eaten(final(self).events@)),
+            emits(eaten(final(self).events@).skip(eaten(old(self).events@).len() as int), ranges(comment_tokens@), doc_mode(old(self))) /*@C01.parse_comments.emits-slice*/,
+            """ + PARSER_FRAME,
+            body_first="""reveal(emits);
+        let ghost r = ranges(comment_tokens@);
+        let ghost e0 = eaten(self.events@);""",
+            loops={
+                0: """
+invariant
+    VERUS_ghost_iter.seq().len() == comment_tokens@.len(),
+    forall|q: int| 0 <= q < comment_tokens@.len() ==> *VERUS_ghost_iter.seq()[q] == comment_tokens@[q],
+    r == ranges(comment_tokens@), eaten(self.events@) == e0 + r.take(VERUS_ghost_iter.index()), /*@C01.parse_comments.emits-slice*/
+    same_cursor(self, old(self)), ev_mono(old(self).events@, self.events@), self.mark_level == old(self).mark_level, lvl_ok(self),
+""",
+                1: """
+invariant
+    VERUS_ghost_iter.seq().len() == comment_tokens@.len(),
+    forall|q: int| 0 <= q < comment_tokens@.len() ==> VERUS_ghost_iter.seq()[q] == comment_tokens@.len() - 1 - q,
+    0 < trivia_token_start <= comment_tokens@.len(),
+    sp_comment(comment_tokens@[0].kind),
+""",
+                2: """
+invariant
+    VERUS_ghost_iter.seq().len() == comment_tokens@.len() - trivia_token_start,
+    forall|q: int| 0 <= q < comment_tokens@.len() - trivia_token_start ==> *VERUS_ghost_iter.seq()[q] == comment_tokens@[trivia_token_start + q],
+    0 < trivia_token_start <= comment_tokens@.len(),
+    r == ranges(comment_tokens@), eaten(self.events@) == e1 + r.subrange(trivia_token_start as int, trivia_token_start + VERUS_ghost_iter.index()), /*@C01.parse_comments.emits-slice*/
+    same_cursor(self, old(self)), ev_mono(old(self).events@, self.events@), self.mark_level >= old(self).mark_level, lvl_ok(self),
+""",
+            },
+            proof=[
+                (r'for token in comment_tokens \{', 'after', 'broadcast use lemma_eaten_push;'),
+                (r'\.skip\(trivia_token_start[^)]*\) \{', 'after', 'broadcast use lemma_eaten_push;'),
+                (r'for token in comment_tokens \{[\s\S]*?range: token\.range,\s*\}\);', 'after',
+                 """proof {
+                    let n = VERUS_ghost_iter.index();
+                    assert(r.take(n).push(r[n]) =~= r.take(n + 1));
+                    assert(e0 + r.take(n + 1) =~= (e0 + r.take(n)).push(r[n]));
+                }"""),
+                (r'return;', 'before',
+                 """proof {
+                assert(r.take(r.len() as int) =~= r);
+                assert((e0 + r).take(e0.len() as int) =~= e0);
+                assert((e0 + r).skip(e0.len() as int) =~= r);
+            }"""),
+                (r'LuaDocParser::parse\(self, tokens\);', 'before',
+                 """proof {
+            lemma_ranges_subrange(comment_tokens@, 0, trivia_token_start as int);
+            lemma_adjacent_subrange(r, 0, trivia_token_start as int);
+        }"""),
+                (r'LuaDocParser::parse\(self, tokens\);', 'after',
+                 """let ghost e1 = eaten(self.events@);
+        proof { assert(r.subrange(trivia_token_start as int, trivia_token_start as int) =~= Seq::<SourceRange>::empty()); assert(e1 + Seq::<SourceRange>::empty() =~= e1); }"""),
+                (r'\.skip\(trivia_token_start[^)]*\) \{\s*self\.events\.push\(MarkEvent::EatToken \{\s*kind: token\.kind,\s*range: [^,]*,\s*\}\);', 'after',
+                 """proof {
+                let s = trivia_token_start as int;
+                let n = VERUS_ghost_iter.index();
+                assert(r.subrange(s, s + n).push(r[s + n]) =~= r.subrange(s, s + n + 1));
+                assert(e1 + r.subrange(s, s + n + 1) =~= (e1 + r.subrange(s, s + n)).push(r[s + n]));
+            }"""),
+                (r'\.skip\(trivia_token_start[^)]*\) \{[\s\S]*?\}\);\s*\}', 'after',
+                 """proof {
+            let s = trivia_token_start as int;
+            let n = comment_tokens@.len() as int;
+            let d = e1.skip(e0.len() as int);
+            let tail = r.subrange(s, n);
+            lemma_adjacent_subrange(r, s, n);
+            lemma_emits_self(tail, true);
+            assert(r.take(s) + tail =~= r);
+            lemma_emits_cat(d, r.take(s), tail, tail, true);
+            assert((e1 + tail).take(e0.len() as int) =~= e1.take(e0.len() as int));
+            assert((e1 + tail).skip(e0.len() as int) =~= d + tail);
+        }"""),
+            ]),
         'is_trivia_kind': {'src': {'file': P, 'kind': 'fn', 'name': 'is_trivia_kind'}, 'ret': 'r',
                            'ensures': 'r == sp_trivia(kind) /*@C01.kinds.trivia-set*/'},
         'is_invalid_kind': {'src': {'file': P, 'kind': 'fn', 'name': 'is_invalid_kind'}, 'ret': 'r',
                             'ensures': 'r == sp_invalid(kind) /*@C01.kinds.invalid-set*/'},
-        'parse_chunk': {'src': {'file': G, 'kind': 'fn', 'name': 'parse_chunk'}, 'rules': ['c01-drop-error-report'],
-                        'loops': {0: 'decreases p.tokens@.len() - p.token_index'}},
+        'parse_chunk': {
+            'src': {'file': G, 'kind': 'fn', 'name': 'parse_chunk'}, 'rules': ['c01-drop-error-report'],
+            'requires': 'tokens_ok(old(p).tokens@), old(p).token_index == 0, old(p).events@.len() == 0, old(p).mark_level == 0',
+            'ensures': """inv(final(p)),
+            final(p).token_index == final(p).tokens@.len(),
+            ranges(final(p).tokens@) == ranges(old(p).tokens@), doc_mode(final(p)) == doc_mode(old(p)),
+            emits(eaten(final(p).events@), ranges(old(p).tokens@), doc_mode(old(p))) /*@C01.parse_chunk.all-tokens-emitted*/,
+            final(p).events@.len() > 0 && final(p).events@[0] is NodeStart""",
+            'loops': {0: """
+invariant
+    inv(p), ranges(p.tokens@) == ranges(old(p).tokens@), p.tokens@.len() == old(p).tokens@.len(), doc_mode(p) == doc_mode(old(p)),
+    p.mark_level >= 1,
+    m.position == 0, p.events@.len() > 0, p.events@[0] is NodeStart,
+decreases p.tokens@.len() - p.token_index"""},
+            'proof': [
+                (r'let consume_count = p\.current_token_index\(\);', 'after', 'let ghost ti0 = p.token_index;'),
+                (r'm\.complete\(p\);\s*\}(?=\s*\}\s*m\.complete)', 'after',
+                 'proof { assert(p.token_index > ti0); /*@C02.parse_chunk.terminates*/ }'),
+                (r'm\.complete\(p\);(?=\s*\}\s*$)', 'before',
+                 'proof { assert(ranges(p.tokens@).take(p.tokens@.len() as int) =~= ranges(p.tokens@)); }'),
+            ],
+        },
     },
     'extra_rules': [
+        ('refmut-cmp-deref', r'\bindex >= &mut self\.tokens\.len\(\)', '*index >= self.tokens.len()',
+         '`a >= &mut b` with a: &mut usize -> `*a >= b`: std `impl PartialOrd<&mut B> for &mut A` forwards to the '
+         'comparison of the pointees (core::cmp, "impls for references")'),
         ('c01-drop-error-report',
          r'// Provide more detailed error information\s*let error_msg = match p\.current_token\(\) \{.*?\n            \};\s*p\.push_error\(LuaParseError::syntax_error_from\(&error_msg, error_range\)\);',
          '',
@@ -343,7 +496,84 @@ decreases self.tokens@.len() - *index"""}),
          re.S),
     ],
     'allow': [r'external_body', r'uninterp spec fn sp_'],
-    'min_obligations': 10,
-    'trusted': [],
-    'mutants': [],
+    'min_obligations': 50,
+    'trusted': [
+        'ASSUMED (established by unit c01_reader, link L1): tokens_ok(tokens) — consecutive token ranges are adjacent, the first starts at 0, '
+        'every length > 0 (not used by any proof here), no token has kind None or TkEof (such a token would be dropped by bump: is_invalid_kind), '
+        'and tokens.len() < 2^31 - 1 (parse_trivia_tokens counts line ends in an i32)',
+        'ASSUMED contract of LuaDocParser::parse (doc lexer + doc grammar, ~3000 lines, external_body): appends events whose EatToken ranges tile '
+        'exactly the byte span of the comment tokens it is given (it re-lexes the comment text, so the ranges are NOT the token ranges); leaves tokens, '
+        'token_index, current_token, parse_config untouched; events only grow and NodeStarts stay NodeStarts; mark_level does not drop below its entry '
+        'value and stays <= events.len(). The one unverified link of C01/L2 (checked by instrumentation over the crate test-suite and a token-soup run, not proved)',
+        'ASSUMED contract of parse_stats (statement grammar, external_body): preserves inv, does not decrease token_index, keeps the number and ranges of '
+        'tokens and the configuration, events monotone, mark_level not below entry value. Basis: events/tokens/token_index/current_token/mark_level are '
+        'private to parser::lua_parser, the grammar reaches them only through the functions proved here; the one hole, pub(crate) get_events(), is used '
+        'only in marker.rs, lua_parser.rs, lua_doc_parser.rs (grep, not proved)',
+        'PRECONDITION bump: token_index < tokens.len() — bump at end of input indexes tokens[len] in parse_trivia_tokens and panics (reproduced); every '
+        'grammar call site is guarded by a test of current_token, which is TkEof there (scan + 1M-input soup, not proved)',
+        'PRECONDITION push_node_end / Marker::complete (non-empty node): mark_level > 0 (decr_mark_level is `-= 1`); callers are in the unextracted grammar, '
+        'except parse_chunk where it is proved',
+        'PRECONDITION Marker::{set_kind,complete,undo}: position < events.len() and events[position] is NodeStart; CompleteMarker::precede: events[start] is NodeStart '
+        '(an invalid CompleteMarker has start == 0: needs events[0] to be a NodeStart, which parse_chunk establishes and ev_mono preserves)',
+        'ParserConfig::support_emmylua_doc: uninterpreted result (sp_support_doc); ParserConfig is opaque',
+        'derive(PartialEq) on the field-less enums LuaTokenKind/LuaSyntaxKind is structural equality (Verus `Structural` marker added to the derive list); '
+        'Debug/PartialOrd/Ord/Hash derives and #[repr(u16)] are dropped',
+        'the contracts on the abstract methods of trait MarkerEventContainer are proved for the LuaParser impl; the LuaDocParser impl (delegation to LuaParser) is not extracted',
+    ],
+    'not_covered': [
+        'doc mode: "each lexer token exactly once" is weakened to "the emitted ranges tile exactly the bytes of the tokens, in order" because the doc parser re-tokenises comment groups; '
+        'without doc support the exact statement (eaten == token ranges, in order) is proved',
+        'LuaParser::parse (lexer + builder glue), current_token_text, push_error/has_error/get_errors, the ternary/paren depth counters',
+        'the ~3000 lines of statement/expression grammar and the doc parser: panics and termination inside them',
+    ],
+    'samples': [
+        'bump: requires inv && token_index < len; ensures inv (everything before the current token emitted exactly once, in order), token_index strictly larger, lands on non-trivia or end',
+        'parse_trivia_tokens(next): the pending doc_tokens slice is tokens[j..i); eaten(events) accounts for tokens[..j); ensures eaten accounts for tokens[..next)',
+        'parse_comments: eaten grows by exactly the slice (non-doc: the token ranges; doc: a tiling of their byte span via the assumed doc-parser contract)',
+        'Marker::{set_kind,complete,undo}, CompleteMarker::precede, mark, push_node_end (generic over P: MarkerEventContainer): eaten unchanged, only the own NodeStart altered, no unreachable!()/index panic',
+        'parse_chunk: terminates (token_index strictly increases per iteration), all tokens emitted at exit, events[0] is the Block NodeStart',
+    ],
+    'mutants': [
+        {'name': 'bump-skip-eat', 'item': 'LuaParser::bump',
+         'pattern': r'self\.events\.push\(MarkEvent::EatToken \{\s*kind: token\.kind,\s*range: token\.range,\s*\}\);', 'repl': '',
+         'expect': r'C01\.bump\.emits-each-token-once'},
+        {'name': 'bump-push-twice', 'item': 'LuaParser::bump',
+         'pattern': r'(self\.events\.push\(MarkEvent::EatToken \{\s*kind: token\.kind,\s*range: token\.range,\s*\}\);)', 'repl': r'\1 \1',
+         'expect': r'C01\.bump\.emits-each-token-once'},
+        {'name': 'bump-no-progress', 'item': 'LuaParser::bump',
+         'pattern': r'let mut next_index = self\.token_index \+ 1;', 'repl': 'let mut next_index = self.token_index;',
+         'expect': r'C02\.bump\.progress'},
+        {'name': 'trivia-drop-whitespace', 'item': 'LuaParser::parse_trivia_tokens',
+         'pattern': r'(TkShebang \| LuaTokenKind::TkWhitespace => \{\s*if doc_tokens\.is_empty\(\) \{)\s*self\.events\.push\(MarkEvent::EatToken \{\s*kind: token\.kind,\s*range: token\.range,\s*\}\);',
+         'repl': r'\1', 'expect': r'C01\.trivia\.emits-run'},
+        {'name': 'trivia-drop-final-flush', 'item': 'LuaParser::parse_trivia_tokens',
+         'pattern': r'(if !doc_tokens\.is_empty\(\) \{\s*self\.parse_comments\(&doc_tokens\);\s*\}\s*\}\s*)$',
+         'repl': r'doc_tokens.clear(); \1', 'expect': r'C01\.trivia\.emits-run'},
+        {'name': 'trivia-forget-comment', 'item': 'LuaParser::parse_trivia_tokens',
+         'pattern': r'line_count = 0;\s*doc_tokens\.push\(\*token\);', 'repl': 'line_count = 0;',
+         'expect': r'C01\.trivia\.emits-run'},
+        {'name': 'skip-trivia-plus-one', 'item': 'LuaParser::skip_trivia',
+         'pattern': r'\{\s*if index >= &mut', 'repl': '{ *index += 1; if index >= &mut',
+         'expect': r'C01\.skip_trivia\.skips-only-trivia'},
+        {'name': 'comments-skip-token', 'item': 'LuaParser::parse_comments',
+         'pattern': r'for token in comment_tokens \{\s*(self\.events\.push\(MarkEvent::EatToken \{\s*kind: token\.kind,\s*range: token\.range,\s*\}\);)',
+         'repl': r'for token in comment_tokens { if token.kind != LuaTokenKind::TkEndOfLine { \1 }',
+         'expect': r'C01\.parse_comments\.emits-slice'},
+        {'name': 'comments-trailing-trivia-wrong-range', 'item': 'LuaParser::parse_comments',
+         'pattern': r'(\.skip\(trivia_token_start\) \{\s*self\.events\.push\(MarkEvent::EatToken \{\s*kind: token\.kind,\s*)range: token\.range,',
+         'repl': r'\1range: SourceRange::EMPTY,',
+         'expect': r'C01\.parse_comments\.emits-slice'},
+        {'name': 'trivia-kind-set', 'item': 'is_trivia_kind',
+         'pattern': r'\s*\| LuaTokenKind::TkShebang', 'repl': '',
+         'expect': r'C01\.kinds\.trivia-set'},
+        {'name': 'node-end-eats', 'item': 'MarkerEventContainer',
+         'pattern': r'push\(MarkEvent::NodeEnd\)', 'repl': 'push(MarkEvent::EatToken { kind: LuaTokenKind::None, range: SourceRange::EMPTY })',
+         'expect': r'C01\.marker\.frame'},
+        {'name': 'undo-wrong-slot', 'item': 'Marker::undo',
+         'pattern': r'p\.get_events\(\)\[self\.position\]', 'repl': 'p.get_events()[0]',
+         'expect': r'C02\.marker\.touches-own-nodestart-only'},
+        {'name': 'chunk-no-bump', 'item': 'parse_chunk',
+         'pattern': r'p\.bump\(\); // Consume current token to avoid infinite loop', 'repl': '',
+         'expect': r'C02\.parse_chunk\.terminates'},
+    ],
 }
